@@ -220,7 +220,7 @@ func (vm *VM) convertPanic(msg any) error {
 		}
 	case OpPanic:
 		return vm.newPanic(msg)
-	case OpSend, -OpSend:
+	case OpSend, -OpSend, OpSelect:
 		switch err := msg.(type) {
 		case runtime.Error:
 			if s := err.Error(); s == "send on closed channel" {
